@@ -113,6 +113,23 @@ CHECKS["C19"] = dict(
     tech="LLVM-IR symbolic execution of every C wrapper with uninterpreted callees (trace conformance decided with z3); ground comparison of compiler-folded layout constants per configuration",
     ref="5/C19")
 
+CHECKS["C20"] = dict(
+    cat="other",
+    text="Interleavings are NOT explored (no concurrency engine; nothing here claims they are). The property is reduced to the premise 'no library function "
+         "writes memory other than its frame and objects reachable from its pointer arguments; globals that are read hold their load-time values', and that "
+         "premise is decided over the IR of every function of every TU (configurations A, P64, P32): an interprocedural points-to relation (globals, "
+         "alloca sites, caller memory; copy/GEP/phi/select/load/store/memcpy/argument/return edges; indirect calls through the dispatch pointers resolved to "
+         "the assembly routines; callbacks write through whatever they are given) is emitted as Horn clauses and z3's fixed-point engine answers the queries "
+         "'a store may reach a global outside the allow-list', 'a call reaches a body-less function', 'a store goes through a pointer of unknown provenance' "
+         "(all empty). The x86-64 assembly is covered by the same engine over the assembled instruction stream (which register holds which argument). "
+         "Static initialisers are executed in E-IR (CPUID stub 0/1): they write only the dispatch triple, Fp::one (+guard) and wkdibe::group_order, with the "
+         "right values. Table look-ups (no solver): writable/TLS/guard/atomic constructs, undefined symbols and writable sections of the objects built with the Makefile's flags.",
+    note="Sound flow-insensitive over-approximation; re-entrancy follows by the standard non-interference argument, caller-side races on shared objects are the caller's "
+         "contract. Observation recorded in DESIGN.md: besides the dispatch table, Fp<..>::one (with guard byte), wkdibe::group_order (dynamic initialisation at load) and the "
+         "non-const but never-written g1_endomorphism_lambda are writable objects; they are written only at load time / never. AArch64 and ARMv6-M assembly not analysed.",
+    tech="Horn-clause points-to analysis of the LLVM IR and of the assembled x86-64 instruction stream decided by z3's fixed-point engine; symbolic execution of static initialisers; symbol-table audit",
+    ref="5/C20")
+
 NOT_APPLICABLE = {
 }
 
